@@ -2,7 +2,7 @@ use sea_query::Alias;
 
 use vespertide_core::TableDef;
 
-use super::helpers::build_sea_column_def_with_table;
+use super::helpers::{build_sea_column_def_with_table, restate_mysql_auto_increment};
 use super::types::{BuiltQuery, DatabaseBackend, RawSql};
 use crate::error::QueryError;
 
@@ -58,7 +58,8 @@ pub fn build_modify_column_comment(
             };
 
             // Build base ALTER TABLE statement using sea-query for type/nullable/default
-            let sea_col = build_sea_column_def_with_table(backend, table, &modified_col_def);
+            let mut sea_col = build_sea_column_def_with_table(backend, table, &modified_col_def);
+            restate_mysql_auto_increment(&mut sea_col, table_def, &modified_col_def);
 
             // Build the ALTER TABLE ... MODIFY COLUMN statement
             let stmt = sea_query::Table::alter()
